@@ -27,7 +27,7 @@ def build_case(rng, tier, kind):
         for _ in range(rng.randint(1, 3)):
             sts.append(g.insert(name, nrows=rng.randint(5, 8)))
             sts.append({"k": "delete", "table": name,
-                        "where": [[(("col", "", "a"), rng.choice(["=", ">=", "!="]), g.counter - rng.randint(0, 4))]]})
+                        "where": [[(("col", "", "a"), rng.choice(["=", ">=", "!="]), max(0, g.counter - rng.randint(0, 4)))]]})
             sts.append(g.insert(name, nrows=rng.randint(2, 6)))
             sts.append(g.update(name))
         dump_every = 1
